@@ -265,11 +265,10 @@ func (ci *ChainImpl) QueryOp(line string) (string, bool) {
 			}
 			return "found:" + h.Hash, true
 		case r.Status == http.StatusInternalServerError && len(bytes.TrimSpace(r.Body)) == 0:
-			// gin.Recovery after a handler panic: the model distinguishes the two causes
-			if len(ws) == 1 {
-				return "panic", true
-			}
-			return "nil", true
+			// gin.Recovery after a handler panic (the defect repaired by 397583f / 15c8125): never expected again
+			return "panic", true
+		case errCode(r.Body) == "ErrCommonAncestorEmptyList":
+			return "err:empty", true
 		case errCode(r.Body) == "ErrHeaderNotFound" || errCode(r.Body) == "ErrAncestorNotFound":
 			return "err:notfound", true
 		}
